@@ -406,12 +406,28 @@ func (c *Checker) runEdit(e s35Edit, sh s35Shape) string {
 		return "target " + e.target + ": " + why
 	}
 	before, _ := n.call(sig, "Data").(*SliceV)
+	var rawBefore []*BV
+	if before != nil {
+		if rawBefore, why = n.readBytes(before); why != "" {
+			return "Data() before " + e.method + ": " + why
+		}
+	}
 	n.call(tgt, e.method, e.args(n)...)
 	if n.in.Fail != "" {
 		return "analysis of " + e.method + ": " + n.in.Fail
 	}
-	if after, _ := n.call(sig, "Data").(*SliceV); before == nil || after == nil || after.Obj != before.Obj || !sameBV(after.Lo, before.Lo) || !sameBV(after.Len, before.Len) {
+	after, _ := n.call(sig, "Data").(*SliceV)
+	if before == nil || after == nil || after.Obj != before.Obj || !sameBV(after.Lo, before.Lo) || !sameBV(after.Len, before.Len) {
 		return "the raw-data accessor changes before the signal is encoded again"
+	}
+	rawAfter, why := n.readBytes(after)
+	if why != "" {
+		return "Data() after " + e.method + ": " + why
+	}
+	for i := range rawBefore {
+		if !sameBV(rawBefore[i], rawAfter[i]) {
+			return fmt.Sprintf("byte %d of the raw data (%s) is overwritten by %s before the signal is encoded again", i, s35Where(x, i), e.method)
+		}
 	}
 	sh2 := cloneShape(sh)
 	vals := cloneVals(x.vals)
